@@ -6,7 +6,8 @@ R14.1 [must-call]   every path through each native pipeline.init calls
 R14.2 [FIN]         the path-condition table of validate_model's raises covers the
                     18 rows of specs/c14_validate.json (feature -> guard).
 R14.4 [tables]      link-type alphabet / widths / dispatch tables agree; loader field
-                    provenance equals specs/c14_fields.json.
+                    values equal the reference built from the mjModel layout
+                    (load_model abstractly executed on mock models, braxlint/loader.py).
 """
 import ast
 import json
@@ -23,11 +24,12 @@ EXPLANATION = (
     'validate_model is reduced to a canonical path condition (finite-domain predicate '
     'normalisation, loop variables bound to the whole iterated field) and compared with the '
     'table of declared-unsupported features; (R14.4) link-type alphabet, width tables, '
-    'dispatch tables and the def-use provenance of the System/Link/DoF/Actuator fields built '
-    'by load_model are compared with the reference table.  Decides the guard structure for all '
+    'dispatch tables agree, and load_model -- abstractly executed on mock MuJoCo models with concrete '
+    'integer / flag fields and symbolic real fields -- returns, field by field, the reference values '
+    'built from the mjModel layout.  Decides the guard structure for all '
     'models; does not run MuJoCo or brax.')
 TRUSTED = ['python ast', 'braxlint.pred predicate normaliser', 'specs/c14_validate.json (rows '
-           'transcribed from the property statement)', 'specs/c14_fields.json (field provenance '
+           'transcribed from the property statement)', 'braxlint/loader.py reference specification (field values '
            'confirmed by reading against MuJoCo mjModel documentation)']
 ASSUMPTIONS = ['MuJoCo mjModel field semantics (jnt_type codes 0..3, trntype 0 = joint, qpos '
                'widths 7/4/1/1)', 'a raise of any exception type counts as rejection']
@@ -161,127 +163,33 @@ def r14_4_tables(U, rep):
   rep.stat('dispatch_tables', n)
 
 
-class _Prov:
-  """Collects canonical provenance rows from load_model."""
-
-  def __init__(self, f):
-    self.rows = {}
-    self.f = f
-
-    def on_assign(s, pc, env, N):
-      tg = s.targets[0] if isinstance(s, ast.Assign) else s.target
-      if isinstance(tg, ast.Name) and tg.id in ('typ', 'motion', 'limit', 'stiffness') and pc:
-        val = env.get(tg.id)
-        self.add('%s | %s' % (tg.id, ' ∧ '.join(sorted(pred.atoms_of(pc)))), val, s)
-      if isinstance(tg, ast.Subscript) and isinstance(tg.value, ast.Attribute):
-        base = N.term(tg.value, env)
-        idx = N.index(tg.slice, env)
-        d = dotted(tg.value)
-        self.add('store %s[%s]' % ('.'.join(d) if d else pred.show(base), pred.show(idx)),
-                 N.term(s.value, env), s)
-      if isinstance(tg, ast.Subscript) and isinstance(tg.value, ast.Name) is False:
-        pass
-
-    def on_expr(s, pc, env, N):
-      v = s.value
-      if isinstance(v, ast.Call) and isinstance(v.func, ast.Attribute) and v.func.attr == 'append' \
-          and isinstance(v.func.value, ast.Name) and v.args:
-        self.add('append %s' % v.func.value.id, N.term(v.args[0], env), s, multi=True)
-
-    self.env = pred.sym_walk(f.node, f.mod, on_assign=on_assign, on_expr=on_expr,
-                             drop_raise_negations=False)
-
-  def add(self, key, term, node, multi=False):
-    s = pred.show(term)
-    if multi and key in self.rows and self.rows[key][0] != s:
-      k = 2
-      while '%s #%d' % (key, k) in self.rows:
-        k += 1
-      key = '%s #%d' % (key, k)
-    self.rows[key] = (s, node.lineno)
-
-
-def _find_calls(term, name, out):
-  if isinstance(term, tuple):
-    if term and term[0] == 'call' and term[1].split('.')[-1] == name:
-      out.append(term)
-    for x in term:
-      if isinstance(x, (tuple, frozenset)):
-        _find_calls(tuple(x) if isinstance(x, frozenset) else x, name, out)
-  return out
-
-
-def provenance_rows(U):
+def loader_fields(U, rep, rule='R14.4', prefix=None, label='field:'):
+  """Definition match ON VALUES: brax.io.mjcf.load_model is abstractly executed (braxlint/loader.py) on mock MuJoCo
+  models whose integer / flag fields are concrete and whose real-valued fields are symbolic; every field of the
+  System it returns equals the reference built from the mjModel layout -- however the loader is written."""
+  from braxlint import loader
   f = U.func('brax.io.mjcf.load_model')
-  P = _Prov(f)
-  rows = dict(P.rows)
-  sysv = P.env.get('sys')
-  if sysv is None:
-    raise AnalysisError('load_model: no local `sys`')
-  for cname in ('System', 'Link', 'DoF', 'Actuator', 'Inertia'):
-    calls = _find_calls(sysv, cname, [])
-    if not calls:
-      raise AnalysisError('load_model: constructor %s(...) not found in the returned system' % cname)
-    c = calls[0]
-    if c[2]:
-      raise AnalysisError('load_model: positional arguments to %s(...) are not modelled' % cname)
-    for k, v in c[3]:
-      if k == '**':
-        if v[0] == 'sub' and v[1][0] == 'dict':
-          for dk, dv in v[1][1]:
-            if dk[0] == 'c':
-              rows['%s.%s' % (cname, dk[1])] = (pred.show(('sub', dv, v[2])), f.line)
-        else:
-          rows['%s.**' % cname] = (pred.show(v), f.line)
-      else:
-        s = pred.show(v)
-        if len(s) < 400:
-          rows['%s.%s' % (cname, k)] = (s, f.line)
-  # Transforms inside Link
-  link = _find_calls(sysv, 'Link', [])[0]
-  for k, v in link[3]:
-    if k in ('transform', 'joint'):
-      t = _find_calls(v, 'Transform', [])
-      if t:
-        for kk, vv in t[0][3]:
-          rows['Link.%s.%s' % (k, kk)] = (pred.show(vv), f.line)
-  inertia = _find_calls(sysv, 'Inertia', [])[0]
-  for k, v in inertia[3]:
-    if k == 'transform':
-      t = _find_calls(v, 'Transform', [])
-      if t:
-        for kk, vv in t[0][3]:
-          rows['Inertia.transform.%s' % kk] = (pred.show(vv), f.line)
-  # the slice applied to the whole link tree (world body dropped)
-  lk = [v for k, v in _find_calls(sysv, 'System', [])[0][3] if k == 'link']
-  if lk:
-    t = lk[0]
-    rows['System.link (wrapper)'] = (pred.show(t).split('brax.base.Link(')[0] + 'Link(...)' +
-                                     pred.show(t).rsplit(')', 1)[-1], f.line)
-  return rows, f
+  res = loader.compare_all(U.repo, only=prefix)
+  by = {}
+  for mock_name, path, ok in res:
+    by.setdefault(path, []).append((mock_name, ok))
+  if len([p for p in by if not p.startswith('structure')]) < (8 if prefix else 40) and all(ok for v in by.values() for _, ok in v):
+    raise AnalysisError('%s: only %d loader fields compared' % (rule, len(by)))
+  for path in sorted(by):
+    bad = [m for m, ok in by[path] if not ok]
+    if path.startswith('structure'):
+      rep.fail(rule, label + 'structure', 'the loader makes a selection / mask / branch depend on real-valued model data; in the '
+               'reference every such decision is a function of the integer and flag fields (joint types, ids, *limited, '
+               'biastype, trntype) only: %s' % path, where=f.where(), construct='mock model: %s' % bad[0])
+      continue
+    rep.check(not bad, rule, label + path,
+              'the loaded `%s` is not the reference value built from the mjModel (mock model: %s)' % (path, bad[0] if bad else ''),
+              where=f.where(), construct='%d mock models (integer / flag fields concrete, real fields symbolic)' % len(by[path]))
+  rep.stat('loader_comparisons', len(res))
 
 
 def r14_4_fields(U, rep):
-  rows, f = provenance_rows(U)
-  with open(os.path.join(SPECS, 'c14_fields.json')) as fh:
-    spec = json.load(fh)['rows']
-  rep.stat('provenance_rows_extracted', len(rows))
-  for key, want in sorted(spec.items()):
-    alts = want if isinstance(want, list) else [want]
-    got = rows.get(key)
-    if got is None:
-      # multi rows may be renumbered; look for the value under any numbered sibling
-      base = key.split(' #')[0]
-      sib = [v for k, v in rows.items() if k.split(' #')[0] == base and v[0] in alts]
-      if sib:
-        got = sib[0]
-    if got is not None and got[0] in alts:
-      rep.ok('R14.4', 'field:' + key, construct=got[0][:200], where=(f.file, got[1], f.qname))
-    else:
-      rep.fail('R14.4', 'field:' + key,
-               'loader field `%s` is not built from the reference source' % key,
-               where=(f.file, got[1] if got else f.line, f.qname), expected=' | '.join(alts),
-               found=got[0] if got else 'row not found')
+  loader_fields(U, rep)
 
 
 def run(U, rep, tier):
